@@ -259,7 +259,7 @@ class DSG:
 
                 # Map value of taken design variable onto domain of linked design variable
                 if des_var_node.is_discrete:
-                    dep_value = value
+                    dep_value, _ = linked_des_var_node.correct_value(value)
                 else:
                     if linked_des_var_node.bounds is None:
                         raise ValueError(f'Design variable bounds not set: {linked_des_var_node!r}')
